@@ -44,6 +44,7 @@ type Plan struct {
 	// per-mille rates of background outcomes
 	NullPM, ErrPM, DirPM int
 	PanicPM              int // background rate of panicking resolvers (used by the websocket scenario)
+	TagPanicPM           int // background rate of Tag values whose eager marshal function panics
 	MaxList              int
 	Faults               map[string]Kind    // resolver path -> KError | KPanic | KNull
 	DirFaults            map[string]DirKind // field path -> directive behaviour
@@ -153,6 +154,16 @@ func (p *Plan) Scalar(key, typeName string) *parsers.J {
 		return parsers.NewBool(x%2 == 0)
 	case "ID":
 		return parsers.NewStr(fmt.Sprintf("id-%s", key))
+	case "Tone":
+		if p.TagPanics(key) {
+			return parsers.NewStr("MARSHAL_PANIC-" + key)
+		}
+		return parsers.NewStr([]string{"LOW", "MID", "HIGH"}[x%3])
+	case "Tag":
+		if p.TagPanics(key) {
+			return parsers.NewStr("MARSHAL_PANIC-" + key)
+		}
+		return parsers.NewStr(fmt.Sprintf("tag-%s-%d", key, x%97))
 	case "Blob":
 		if p.Faults[key] == KMarshalPanic {
 			return parsers.NewStr("MARSHAL_PANIC-" + key)
@@ -161,6 +172,14 @@ func (p *Plan) Scalar(key, typeName string) *parsers.J {
 	default:
 		return parsers.NewStr(fmt.Sprintf("%s-%d", key, x%97))
 	}
+}
+
+// TagPanics says whether the eager marshal function of the Tag value at key panics.
+func (p *Plan) TagPanics(key string) bool {
+	if p.Faults[key] == KMarshalPanic {
+		return true
+	}
+	return p.TagPanicPM > 0 && int(h64(p.Seed, "tp|"+key)%1000) < p.TagPanicPM
 }
 
 // ReplaceInt is the value a DReplace directive returns.
